@@ -11,7 +11,7 @@ From Verif Require Import lib.Arith lib.ArithOptZ model.Series model.SeriesOps m
   proofs.SeriesProofs proofs.SeriesOpsProofs proofs.DataboxProofs proofs.CsvProofs
   gen.Csv4Gen model.Csv4 proofs.Databox4Proofs proofs.Csv4Proofs
   gen.Csv5Gen model.Csv5 proofs.Csv5Proofs
-  model.Merge6 proofs.Merge6Proofs.
+  model.Merge6 proofs.Merge6Proofs proofs.Csv6Proofs.
 Import ListNotations.
 Open Scope Z_scope.
 
@@ -448,6 +448,37 @@ Theorem C19_csv_slice_refuted :
 Proof. exact sliced_rows_refuted. Qed.
 Print Assumptions C19_csv_slice_refuted.
 
+
+(* ---- round 6: REPEATED periods in an explicit period list (span= / frequency_span=) ---- *)
+(* C19_csv_roundtrip, C19_csv_values_on_span and C19_csv_row_holds_values_at_its_period already hold for lists with
+   repeats (no NoDup premise on the periods).  Explicitly: the sheet holds one row per POSITION of the list, and two
+   positions holding the same period get identical rows ... *)
+Theorem C19_csv_rows_of_repeated_period : forall A fmt_period fmt_val rnd (o : wopts) total f ps
+  (its : list (string * (string * series A))) i j,
+  (i < length ps)%nat -> (j < length ps)%nat -> nth i ps 0 = nth j ps 0 ->
+  nth ((if w_desc o then 2 else 1) + i) (block_grid_src A fmt_period fmt_val rnd o total f ps its) []
+  = nth ((if w_desc o then 2 else 1) + j) (block_grid_src A fmt_period fmt_val rnd o total f ps its) [].
+Proof. exact block_rows_of_repeated_period. Qed.
+Print Assumptions C19_csv_rows_of_repeated_period.
+
+(* ... and the import (dated rows are stored by Series.set_data: the LAST row of a period wins) returns a series that
+   depends only on the SET of selected periods: repeats and order change nothing *)
+Theorem C19_csv_import_periods_as_set : forall A, lawful A -> is_miss A (miss A) = true ->
+  forall (rnd : car A -> car A) f ps ps' (s : series A), WF A s -> (forall t, In t ps <-> In t ps') ->
+  imp_series A rnd f ps s = imp_series A rnd f ps' s.
+Proof. exact imp_series_periods_as_set. Qed.
+Print Assumptions C19_csv_import_periods_as_set.
+
+Theorem C19_csv_import_repeats_dropped : forall A, lawful A -> is_miss A (miss A) = true ->
+  forall (rnd : car A -> car A) f ps (s : series A), WF A s ->
+  imp_series A rnd f ps s = imp_series A rnd f (nodup Z.eq_dec ps) s.
+Proof. exact imp_series_nodup. Qed.
+Print Assumptions C19_csv_import_repeats_dropped.
+
+Theorem C19_csv_repeated_period_example :
+  imp_series OZArith (fun x => x) 1 [10; 11; 10] s5 = imp_series OZArith (fun x => x) 1 [10; 11] s5 /\ ~ NoDup [10; 11; 10].
+Proof. exact Csv6Examples.repeated_period_same_series. Qed.
+Print Assumptions C19_csv_repeated_period_example.
 
 (* non-vacuity: a lawful carrier, a concrete sheet that round-trips, a concrete history *)
 Example C19_nonvacuous :
